@@ -595,7 +595,10 @@ func checkCmd(args []string) int {
 			} else if c.Kind == "alloc" {
 				confirmed = strings.HasPrefix(o.Outcome, "alloc:")
 			} else {
-				confirmed = o.Outcome == c.Expect
+				// any native assertion failure (or panic) of the harness on these inputs is a
+				// violation; the label may differ because the executor continues past a failed
+				// assertion under the assumption that it held
+				confirmed = o.Outcome == c.Expect || strings.HasPrefix(o.Outcome, "assert:") || strings.HasPrefix(o.Outcome, "panic:")
 			}
 		}
 		if *noNative {
